@@ -45,6 +45,8 @@ struct FoundFn {
     impl_generics: Option<Generics>,
     self_ty: Option<Type>,
     trait_: Option<Path>,
+    /// `type X = ..;` items of the (trait) impl the fn was found in, printed
+    assoc_types: Vec<String>,
     start: usize,
     end: usize,
 }
@@ -80,14 +82,15 @@ fn find_in_items(items: &[Item], self_ty: Option<&str>, name: &str, modpath: &[&
         match (item, self_ty) {
             (Item::Fn(f), None) if f.sig.ident == name => {
                 let sp = f.span();
-                return Some(FoundFn { attrs: f.attrs.clone(), sig: f.sig.clone(), block: (*f.block).clone(), impl_generics: None, self_ty: None, trait_: None, start: sp.start().line, end: sp.end().line });
+                return Some(FoundFn { attrs: f.attrs.clone(), sig: f.sig.clone(), block: (*f.block).clone(), impl_generics: None, self_ty: None, trait_: None, assoc_types: vec![], start: sp.start().line, end: sp.end().line });
             }
             (Item::Impl(im), Some(st)) if impl_matches(im, st) => {
                 for it in &im.items {
                     if let ImplItem::Fn(f) = it {
                         if f.sig.ident == name {
                             let sp = f.span();
-                            return Some(FoundFn { attrs: f.attrs.clone(), sig: f.sig.clone(), block: f.block.clone(), impl_generics: Some(im.generics.clone()), self_ty: Some((*im.self_ty).clone()), trait_: im.trait_.as_ref().map(|t| t.1.clone()), start: sp.start().line, end: sp.end().line });
+                            let assoc_types = im.items.iter().filter_map(|x| if let ImplItem::Type(t) = x { let mut t = t.clone(); t.attrs.clear(); t.vis = Visibility::Inherited; Some(ts(&t)) } else { None }).collect();
+                            return Some(FoundFn { attrs: f.attrs.clone(), sig: f.sig.clone(), block: f.block.clone(), impl_generics: Some(im.generics.clone()), self_ty: Some((*im.self_ty).clone()), trait_: im.trait_.as_ref().map(|t| t.1.clone()), assoc_types, start: sp.start().line, end: sp.end().line });
                         }
                     }
                 }
@@ -98,7 +101,7 @@ fn find_in_items(items: &[Item], self_ty: Option<&str>, name: &str, modpath: &[&
                         if f.sig.ident == name {
                             if let Some(b) = &f.default {
                                 let sp = f.span();
-                                return Some(FoundFn { attrs: f.attrs.clone(), sig: f.sig.clone(), block: b.clone(), impl_generics: Some(tr.generics.clone()), self_ty: None, trait_: None, start: sp.start().line, end: sp.end().line });
+                                return Some(FoundFn { attrs: f.attrs.clone(), sig: f.sig.clone(), block: b.clone(), impl_generics: Some(tr.generics.clone()), self_ty: None, trait_: None, assoc_types: vec![], start: sp.start().line, end: sp.end().line });
                             }
                         }
                     }
@@ -573,12 +576,18 @@ fn main() {
                 let mut body = String::new();
                 let mut header: Option<String> = hdr.clone();
                 let mut metas = vec![];
+                let mut assoc: Option<Vec<String>> = None;
                 for fs in fns {
                     match locate(&mut ctx, file, &fs.path, Some(head)) {
                         Ok(found) => {
+                            // a default method of a trait declaration (`@impl file trait Name`) must come with an @implhdr
+                            // (a blanket impl of an extension trait); like a trait-impl method it carries no `pub`.
+                            let trait_default = found.self_ty.is_none() && found.impl_generics.is_some();
+                            if trait_default && header.is_none() { ctx.problems.push(format!("SPEC-ERROR trait default method {} needs @implhdr", fs.path)); continue; }
                             if header.is_none() { header = Some(impl_header(&found, &None, &unit, fs)); }
+                            if assoc.is_none() && found.trait_.is_some() { assoc = Some(found.assoc_types.clone()); }
                             let disp = format!("<{}>::{}", head, fs.path);
-                            let r = render_fn(&mut ctx, &unit, fs, &found, found.trait_.is_some(), &disp);
+                            let r = render_fn(&mut ctx, &unit, fs, &found, found.trait_.is_some() || trait_default, &disp);
                             body.push_str(&format!("// ---- fn {} from {}:{}-{}\n", disp, file, found.start, found.end));
                             let s = body.lines().count();
                             body.push_str(&r.text);
@@ -589,6 +598,9 @@ fn main() {
                     }
                 }
                 let base = o.lines().count() + 1;
+                // associated types of the source trait impl are emitted mechanically, before the spec's @extra text
+                let mut extra = extra.clone();
+                if let Some(a) = &assoc { let mut t = String::new(); for x in a { t.push_str(&format!("{}\n", x)); } extra = format!("{}{}", t, extra); }
                 o.push_str(&format!("{} {{\n{}{}}}\n\n", header.unwrap_or_else(|| format!("impl {}", head)), extra, body));
                 let extra_lines = extra.lines().count();
                 for (mut m, s, e) in metas { m["gen_lines"] = json!([base + extra_lines + s, base + extra_lines + e]); ctx.fns_meta.push(m); }
@@ -713,7 +725,7 @@ fn main() {
                                 match parse_str::<ItemFn>(&sigtxt) {
                                     Ok(f) => {
                                         let blk: Block = parse_quote!({ #ex });
-                                        let ff = FoundFn { attrs: vec![], sig: f.sig.clone(), block: blk, impl_generics: None, self_ty: None, trait_: None, start: s, end: e };
+                                        let ff = FoundFn { attrs: vec![], sig: f.sig.clone(), block: blk, impl_generics: None, self_ty: None, trait_: None, assoc_types: vec![], start: s, end: e };
                                         let mut fs = l.f.clone();
                                         fs.emit_name = Some(f.sig.ident.to_string());
                                         if let Some(rn) = &ret_name { if fs.ret_name == "r" { fs.ret_name = rn.clone(); } }
